@@ -61,6 +61,28 @@ class HarnessError(Exception):
     pass
 
 
+def failure_from_exception(e: BaseException, case: Any) -> Optional["Failure"]:
+    """An exception that escapes from the code under test on a generated (in-domain) input is a violation, not a
+    harness error.  Returns None when the innermost frame is not inside the repository (then it is the harness's fault)."""
+    tb = traceback.extract_tb(e.__traceback__)
+    if not tb:
+        return None
+    repo_prefix = os.path.abspath(REPO) + os.sep
+    last = tb[-1]
+    if not os.path.abspath(last.filename).startswith(repo_prefix):
+        return None
+    if type(e).__name__ in ("OutOfDomain", "OutOfDomainProgram", "StepBound", "WouldBlock"):
+        return None
+    try:
+        json.dumps(case, default=str)
+        c = case
+    except Exception:
+        c = repr(case)
+    where = f"{os.path.basename(last.filename)}:{last.name}"
+    msg = (str(e).splitlines() or [""])[0][:300]
+    return Failure(f"unexpected-exception:{type(e).__name__}:{where}", {"raw_input": c} if not isinstance(c, dict) else c, f"the code under test raised {type(e).__name__}: {msg} (in {where}) on an in-domain generated input")
+
+
 def digest(obj: Any) -> bytes:
     if isinstance(obj, bytes):
         b = obj
@@ -140,6 +162,23 @@ class Ctx:
     def fail(self, f: Failure) -> None:
         self.stats.failures.append(f.to_json())
 
+    def attempt(self, case: Any, fn: Callable, *args) -> bool:
+        """Run one enumerated case; Failures (and exceptions escaping from the code under test) are recorded.
+        Returns True if the case passed."""
+        try:
+            fn(*args)
+            return True
+        except Failure as f:
+            self.fail(f)
+        except HarnessError:
+            raise
+        except Exception as e:
+            conv = failure_from_exception(e, case)
+            if conv is None:
+                raise
+            self.fail(conv)
+        return False
+
     # ---------------- hypothesis driver ----------------
     def search(self, strategy, body: Callable[[Any], None], max_examples: int, name: str = "", salt: int = 0) -> None:
         """Run `body` over `strategy`; collect the smallest Failure per signature."""
@@ -153,7 +192,15 @@ class Ctx:
             if first_fail[0] is not None and time.time() - first_fail[0] > self.shrink_budget:
                 return
             try:
-                body(x)
+                try:
+                    body(x)
+                except (Failure, HarnessError):
+                    raise
+                except Exception as e:
+                    conv = failure_from_exception(e, x)
+                    if conv is None:
+                        raise
+                    raise conv from e
             except Failure as f:
                 if first_fail[0] is None:
                     first_fail[0] = time.time()
